@@ -29,13 +29,16 @@ class SpartanProtocol(BaseGopherProtocol):
 
         # Three non-empty parts, with the third part being an integer >= 0.
         # A host name never starts with a slash; a Gopher selector of this
-        # server does ("/a b 1", or a search "/find<TAB>top 10").
+        # server does ("/a b 1", or a search "/find<TAB>top 10").  Nor does
+        # a Spartan request line hold a TAB: that is a Gopher search
+        # ("find<TAB>top hits 10").
         parts = self.request.strip().split(" ")
         return (
             len(parts) == 3
             and all(parts)
             and parts[2].isdigit()
             and not parts[0].startswith("/")
+            and "\t" not in self.request
         )
 
     def handle(self):
